@@ -53,6 +53,7 @@ CpClause(c) ==
   ELSE IF Len(marked) = 0 THEN <<"cp-nothing-marked", 0>>
   ELSE IF ~IsChain(g, marked) THEN <<"cp-marked-not-chain", marked>>
   ELSE IF cells # c.cp THEN <<"cp-cells-sum", <<cells, c.cp>> >>
+  ELSE IF "cpStray" \in DOMAIN c /\ Len(c.cpStray) > 0 THEN <<"cp-share-off-the-path", c.cpStray>>
   ELSE IF c.cp \notin ChainLenVals(g, marked) THEN <<"cp-marked-length", <<c.cp, ChainLenVals(g, marked)>> >>
   ELSE OK
 
